@@ -316,6 +316,7 @@ def run(ctx):
     narr = 0
     nidx = 0
     nasm = 0
+    necond = 0
     try:
         import hineslib
         from jaxley.solver_voltage import step_voltage_implicit_with_jaxley_spsolve  # noqa: F401
@@ -346,15 +347,15 @@ def run(ctx):
             except (AssertionError, NotImplementedError, ValueError):
                 continue        # the jaxley backends refuse this structure (allowed by the property)
             exprs += [hineslib.coq_step_expr(st, g, v0, vt, ct, dtq), hineslib.coq_step_expr(st, g, v0, vt, ct, dtq, fn="arr_divisors_okQ"), chk,
-                      hineslib.coq_mstore_expr(st, g, v0, vt, ct, dtq), hineslib.coq_asmstruct_expr(st)]
+                      hineslib.coq_mstore_expr(st, g, v0, vt, ct, dtq), hineslib.coq_asmstruct_expr(st), hineslib.coq_graphstruct_expr(st)]
             if "parents" in case:
                 # Model/HinesIdx.v (about which C01_checker_accepts_every_cell is proved) must produce
                 # exactly the index structure the code built
                 idx_jobs.append(("idx_summary " + hineslib.nat_list([max(q_, 0) for q_ in case["parents"]]) + " " + hineslib.nat_list(case["counts"]), case, st))
             metas.append((case, st, reals, dict(g=[float(x) for x in g], v=[float(x) for x in v0], vt=[float(x) for x in vt], ct=[float(x) for x in ct], dt=float(dtq))))
-        outs = coqeval.coq_eval(["CableQ", "HinesArr", "HinesArrQ", "HinesCheck", "AsmStruct"], exprs, shard=5)
+        outs = coqeval.coq_eval(["CableQ", "HinesArr", "HinesArrQ", "HinesCheck", "AsmStruct", "GraphStruct"], exprs, shard=6)
         for k, (case, st, reals, vals) in enumerate(metas):
-            model = [float(x) for x in cablelib.parse_q_list(outs[5 * k])]
+            model = [float(x) for x in cablelib.parse_q_list(outs[6 * k])]
             narr += 1
             evals += 2
             distinct.add(("arr", str(case)))
@@ -368,16 +369,47 @@ def run(ctx):
                 if len(o) != len(model) or max(abs(a - b) for a, b in zip(o, model)) > 1e-9 * 100:
                     viol.append(dict(case, kind="step_voltage_implicit_with_jaxley_spsolve differs from the array-level model (Model/HinesArr.v)",
                                      solver=sv, values=vals, got=o, model=model))
-            if outs[5 * k + 1] != "true":
+            if outs[6 * k + 1] != "true":
                 viol.append(dict(case, kind="the array-level model divides by zero on a diagonally dominant system", values=vals))
-            if outs[5 * k + 3] != "true":
+            if outs[6 * k + 3] != "true":
                 viol.append(dict(case, kind="the assembled arrays are not M-matrix-like (hypothesis of C01_array_solver_total)", values=vals, no_failing_input_found=True))
-            if outs[5 * k + 4] != "true":
+            if outs[6 * k + 4] != "true":
                 viol.append(dict(case, kind="the index lists the code hands to the assembly (comp_edges by type, branchpoint groups, child_inds, par_inds, slot remapping) are not consistent with layout and topology (hypothesis of C01_implicit_step_total)",
                                  edges=st["edges"], group=st["group"], child_inds=st["child_inds"], par_inds=st["par_inds"], mask=st["mask"], no_failing_input_found=True))
-            if outs[5 * k + 2] != "true":
+            if outs[6 * k + 5] != "true":
+                viol.append(dict(case, kind="the code's edge table / index lists fail the decidable conditions under which the assembled system is the graph system (hypothesis of C01_accepted_structure_step_solves_the_graph_equations)",
+                                 edges=st["edges"], group=st["group"], child_inds=st["child_inds"], par_inds=st["par_inds"], mask=st["mask"], no_failing_input_found=True))
+            if outs[6 * k + 2] != "true":
                 viol.append(dict(case, kind="the verified schedule checker rejects the index structure the code built (theorem C01_array_solver_correct no longer applies)",
                                  cumsum=st["cs"], padded=st["pl"], ncomp=st["nc"], levels=st["levels"], roots=st["roots"], no_failing_input_found=True))
+        # Model/EdgeCond.v (= compute_axial_conductances; C01_every_cell_step_in_physical_parameters) against the code:
+        # which conductance goes on which edge, exact rationals vs floats
+        try:
+            from fractions import Fraction as Fr
+            import jax.numpy as jnp
+            from jaxley.utils.cell_utils import compute_axial_conductances
+            ec_exprs, ec_real = [], []
+            for case, m in mods:
+                st_ = hineslib.structure(m)
+                n_ = st_["ncomp"]
+                dyq = lambda lo, hi, den=8: Fr(rng.randint(int(lo * den), int(hi * den)), den)
+                P = {k: [dyq(*rg) for _ in range(n_)] for k, rg in (("radius", (0.25, 4)), ("length", (2, 40)), ("axial_resistivity", (500, 8000)), ("capacitance", (0.5, 2)))}
+                real = [float(x) for x in np.asarray(compute_axial_conductances(m._comp_edges, {k: jnp.asarray([float(x) for x in v]) for k, v in P.items()}))]
+                ql = lambda xs: "[" + "; ".join(cablelib.q(x) for x in xs) + "]"
+                ts = "[" + "; ".join(f"({a}%nat, {b}%nat, {t}%nat)" for (a, b, t) in st_["edges"]) + "]"
+                ec_exprs.append(f"map (fun g => (Qnum (Qred g), Zpos (Qden (Qred g)))) (map (edge_cond Q Qplus Qmult Qdiv 10000000 1000 (fun i => nth i {ql(P['radius'])} 0) (fun i => nth i {ql(P['length'])} 0) "
+                                f"(fun i => nth i {ql(P['axial_resistivity'])} 0) (fun i => nth i {ql(P['capacitance'])} 0)) {ts})")
+                ec_real.append((case, real))
+            import re as _re
+            for (case, real), o in zip(ec_real, coqeval.coq_eval(["AsmStruct", "EdgeCond"], ec_exprs, prelude="Local Open Scope Q_scope.", shard=4)):
+                ints = [int(x) for x in _re.findall(r"-?\d+", o.replace("%Z", ""))]
+                model = [ints[i] / ints[i + 1] for i in range(0, len(ints) - 1, 2)]
+                necond += 1
+                if len(model) != len(real) or (real and max(abs(a - b) / max(abs(b), 1e-300) for a, b in zip(real, model)) > 1e-11):
+                    viol.append(dict(case, kind="compute_axial_conductances differs from Model/EdgeCond.v (which conductance goes on which edge)", code=real[:40], model=model[:40], no_failing_input_found=True))
+        except Exception as ex:
+            import traceback
+            viol.append({"kind": "edge-conductance correspondence could not be evaluated", "error": repr(ex)[:400], "trace": traceback.format_exc()[-500:], "no_failing_input_found": True})
         import ast
         # Model/AsmIdx.v (about which C01_implicit_step_of_every_cell_total is proved) must produce exactly the edge
         # table, slot remapping, branch-point groups, child_inds and par_inds the code built
@@ -422,7 +454,7 @@ def run(ctx):
     return {"evaluations": evals, "distinct_nontrivial": len(distinct),
             "rule": "one voltage step of every enumerated sorted tree (<=4/5 branches) x sampled compartment counts {1,2,3} + random larger trees, heterogeneous dyadic parameters, optional stimulus, dt in {0.025 .. 1e9}, bwd/CN x 3 backends + fwd on cables + networks; each output checked by exact backward error against an independent physical assembly and against Model/Cable.v in exact rationals; distinct by (tree, counts)",
             "samples": samples, "violations": viol[:20], "traces_validated_against_impl": nmodel,
-            "cases_with_padded_parent_branch": ncrit, "array_level_modules": narr, "index_structures_compared": nidx, "assembly_index_lists_compared": nasm}
+            "cases_with_padded_parent_branch": ncrit, "array_level_modules": narr, "index_structures_compared": nidx, "assembly_index_lists_compared": nasm, "edge_conductance_tables_compared": necond}
 
 
 def replay(ctx, case):
